@@ -102,6 +102,10 @@ class Rule_JJ01(BaseRule):
                 continue
             # Is the current segment raw?
             if seg.is_raw():
+                # NOTE: A zero length meta (e.g. an indent) sitting after the
+                # position can't hold the tag and can't carry a source fix.
+                if seg.is_meta and src_slice.start == src_slice.stop:
+                    continue
                 return seg
             # Otherwise recurse
             return cls._find_raw_at_src_idx(seg, src_idx)
@@ -189,9 +193,10 @@ class Rule_JJ01(BaseRule):
             # We need to identify a raw segment to attach to fix to.
             raw_seg = self._find_raw_at_src_idx(context.segment, src_idx)
 
-            # If that raw segment already has fixes, don't apply it again.
-            # We're likely on a second pass.
-            if raw_seg.source_fixes:
+            # If there's nothing to attach the fix to, or that raw segment
+            # already has fixes, don't apply it (again). In the latter case
+            # we're likely on a second pass.
+            if raw_seg is None or raw_seg.source_fixes:
                 continue
 
             source_fixes = [
